@@ -1271,10 +1271,28 @@ def exit_digests(fn):
     return sorted(out)
 
 
-def exit_arms(v):
-    """the alternatives of a (nested) conditional expression: `a if c else b` can exit with a or with b"""
+def exit_arms(v, depth=0):
+    """the alternatives of a conditional expression: `a if c else b` can exit with a or with b; a conditional expression that is an
+    argument / operand inside the returned expression is distributed the same way (f(a if c else b) exits with f(a) or f(b))"""
     if isinstance(v, ast.IfExp):
-        return exit_arms(v.body) + exit_arms(v.orelse)
+        return exit_arms(v.body, depth) + exit_arms(v.orelse, depth)
+    if depth < 3:
+        deferred = {id(m) for n in ast.walk(v) if isinstance(n, (ast.Lambda, ast.ListComp, ast.SetComp, ast.DictComp, ast.GeneratorExp)) for m in ast.walk(n)}
+        inner = [n for n in ast.walk(v) if isinstance(n, ast.IfExp) and id(n) not in deferred]
+        if inner:
+            idx = [i for i, n in enumerate(ast.walk(v)) if n is inner[0]][0]
+            out = []
+            for arm in (True, False):
+                v2 = copy.deepcopy(v)
+                t2 = list(ast.walk(v2))[idx]
+
+                class R(ast.NodeTransformer):
+                    def visit_IfExp(self, n):
+                        if n is t2:
+                            return n.body if arm else n.orelse
+                        return self.generic_visit(n)
+                out += exit_arms(R().visit(v2), depth + 1)
+            return out
     return [v]
 
 
